@@ -95,6 +95,17 @@ def uptoFork (env : PEnv) (pre : MatchList) (mh : Match) (st : ExecSt) : Prog At
         | none => .nofd x.1
         | some fd => .fork x.1 fd)
 
+/-- What `matches_exec` does after `uptoFork`: the cleanup of an abandoned list, or `exec()` (whose first
+call is the `fork`), the close of the descriptor, and the rest of the list. -/
+def afterFork (env : PEnv) (post : MatchList) : AtFork → Prog (ExecSt × Bool)
+  | .abandoned st' => (if st'.chsrc = true then maildirClose st'.src else .ret ()).bind fun _ => .ret (st', true)
+  | .nofd st' => (if st'.chsrc = true then maildirClose st'.src else .ret ()).bind fun _ => .ret (st', true)
+  | .fork st' fd =>
+    (execP (some fd)).bind fun rc =>
+      .call (.close fd) fun _ =>
+        if (rc != 0) = true then (if st'.chsrc = true then maildirClose st'.src else .ret ()).bind fun _ => .ret (st', true)
+        else matchesExec env post st'
+
 /-- The message is open: its descriptor is a read-only handle on a file of the abstract file system
 whose content is `c` (file ids in use are below the next free one), and the directory stream of
 the maildir being processed is another, existing handle. -/
